@@ -152,6 +152,12 @@ theorem isValidAttributeName_code_none (parseInt : Str → Except PyErr Int) :
 
 /-! non-vacuity: concrete runs of the dump through the interpreter (kernel evaluation) — both rules, both outcomes -/
 
+section
+-- A failing `decide +kernel` explains itself by re-evaluating the proposition with the elaborator, which is very slow on
+-- runs of the interpreter (minutes, gigabytes): the small budget makes a broken example fail at once.  The kernel check of
+-- a correct example does not consume it.
+set_option maxHeartbeats 2000
+
 example : runModule pyIntOfStr tags "isValidAttributeName" [.py (.str "data-x".toList)] = .ok (.py (.bool true)) := by
   decide +kernel
 example : runModule pyIntOfStr tags "isValidAttributeName" [.py (.str "_x9".toList)] = .ok (.py (.bool true)) := by
@@ -171,6 +177,7 @@ example : runModule pyIntOfStr tags "isValidAttributeName" [.py (.str "é".toLis
 /-- an argument that is not a text and not false is outside the subset: an error, never a value -/
 example : runModule pyIntOfStr tags "isValidAttributeName" [.py (.int 7)] = .error (unsupported "index") := by
   decide +kernel
+end
 
 /-! ## `StyleAttribute.camelCaseToDashName` and `StyleAttribute.styleToDict` (static methods of SpecialAttributes.py, dumped as
 `Gen.Code.special_attributes`) against `Attrs.camelToDash` and `Attrs.styleToDict` -/
@@ -431,6 +438,11 @@ theorem styleToDict_code_eq_models (parseInt : Str → Except PyErr Int) (s : St
   exact ⟨styleToDict_code_eq_model parseInt s, styleToDict_code_eq_model parseInt s, styleToDict_code_eq_model parseInt s⟩
 
 /-! non-vacuity: concrete runs of the two dumps (kernel evaluation) -/
+
+-- A failing `decide +kernel` explains itself by re-evaluating the proposition with the elaborator, which is very slow on
+-- runs of the interpreter (minutes, gigabytes): the small budget makes a broken example fail at once.  The kernel check of
+-- a correct example does not consume it.
+set_option maxHeartbeats 2000
 
 example : runModule pyIntOfStr special_attributes "camelCaseToDashName" [.py (.str "paddingTop".toList)]
     = .ok (.py (.str "padding-top".toList)) := by decide +kernel
